@@ -10,12 +10,12 @@ package typecheck
 // A non-variadic function func(a1..an) applies to Slice<t1..tm> iff m == n and every ti is assignable to ai.
 // A variadic function func(a1..a(n-1), v ...e) applies iff m >= n-1, the first n-1 columns are assignable to their
 // parameters and every further column is assignable to the element type e.
-//@ spec func canApplySpec(fn slicefunc.Func, arg slicetype.Type) bool = ite(fn.IsVariadic, tyNumOut(arg) >= tyNumOut(fn.In) - 1 && forall(i, 0, tyNumOut(fn.In) - 1, rtAssignable(tyOut(arg, i), tyOut(fn.In, i))) && forall(i, tyNumOut(fn.In) - 1, tyNumOut(arg), rtAssignable(tyOut(arg, i), rtElem(tyOut(fn.In, tyNumOut(fn.In) - 1)))), tyNumOut(arg) == tyNumOut(fn.In) && forall(i, 0, tyNumOut(arg), rtAssignable(tyOut(arg, i), tyOut(fn.In, i))))
+//@ spec func applies(in slicetype.Type, variadic bool, arg slicetype.Type) bool = ite(variadic, tyNumOut(arg) >= tyNumOut(in) - 1 && forall(i, 0, tyNumOut(in) - 1, rtAssignable(tyOut(arg, i), tyOut(in, i))) && forall(i, tyNumOut(in) - 1, tyNumOut(arg), rtAssignable(tyOut(arg, i), rtElem(tyOut(in, tyNumOut(in) - 1)))), tyNumOut(arg) == tyNumOut(in) && forall(i, 0, tyNumOut(arg), rtAssignable(tyOut(arg, i), tyOut(in, i))))
 
 //@ func typecheck.CanApply (fn, arg) (ok)
 //@   requires fn.In != nil && arg != nil
 //@   requires variadic-shape: implies(fn.IsVariadic, tyNumOut(fn.In) >= 1 && rtKind(tyOut(fn.In, tyNumOut(fn.In) - 1)) == reflect.Slice)
-//@   ensures  decides: ok == canApplySpec(fn, arg)
+//@   ensures  decides: ok == applies(fn.In, fn.IsVariadic, arg)
 //@   modifies nothing
 //@   loop 1 invariant 0 <= i && i <= tyNumOut(fn.In) - 1 && forall(j, 0, i, rtAssignable(tyOut(arg, j), tyOut(fn.In, j)))
 //@   loop 2 invariant tyNumOut(fn.In) - 1 <= i && i <= tyNumOut(arg) && forall(j, tyNumOut(fn.In) - 1, i, rtAssignable(tyOut(arg, j), variadicType))
